@@ -83,6 +83,7 @@ void dsim_scenario() {
     int wk[6]; for (int i = 0; i < nw; i++) wk[i] = dsim::choose(6);
     int rk = dsim::choose(6);
     bool colocate = dsim::flip();
+    bool reuse_custom = dsim::flip();
     dsim::plan_note("waiters=%d kinds=", nw); for (int i = 0; i < nw; i++) dsim::plan_note("%d", wk[i]);
     dsim::plan_note(" resolver=%d colocate=%d", rk, (int)colocate);
     {
@@ -108,6 +109,11 @@ void dsim_scenario() {
                 case 4: {
                     dsim::cell_set(STARTED + i, 1);
                     customs[i].f = &f; customs[i].i = i;
+                    if (reuse_custom) {     // the same awaiter object was offered to another, already resolved future before (and refused)
+                        cocls::future<long> done = cocls::future<long>::set_value(1L);
+                        cocls::co_awaiter<cocls::future<long>> aw0(done);
+                        if (aw0.subscribe(&customs[i])) dsim::fail("C02.harness", "resolved future accepted a subscription");
+                    }
                     cocls::co_awaiter<Fut> aw(f);
                     if (!aw.subscribe(&customs[i])) observe_and_release(f, i);   // already resolved: not registered, caller proceeds itself
                     break; }
